@@ -238,6 +238,77 @@ def r08_3(facts, res):
         res.add(Finding("R08-3", "step:Current", "Step::Current must be the context node itself", g["file"], g["line"], {}))
 
 
+def r08_8(facts, res, rule="R08-8"):
+    """`a//b` is `a/descendant-or-self::node()/b`: like the arm for '/', the arm for '//' goes on from *every* node the left-hand
+    side delivered.  Constructs that leave context nodes out (continue / break, filter / skip / take / dedup on the loop source,
+    comparisons of order keys) are accepted in the '//' arm only where the '/' arm of the same match has them as well: the
+    left-hand nodes need not arrive in document order (reverse axes, several parents), so "already covered" cannot be read off
+    the order keys."""
+    st = res.rule(rule, instances=0)
+    SKIP = {"filter", "filter_map", "skip", "skip_while", "take", "take_while", "step_by", "dedup", "dedup_by", "dedup_by_key", "retain"}
+
+    def leaves_out(body):
+        out = set()
+        for m in walk(body):
+            if m.get("k") in ("Continue", "Break"):
+                out.add(m["k"].lower())
+            elif m.get("k") == "MethodCall" and m.get("m") in SKIP:
+                out.add(m["m"])
+            elif m.get("k") == "Binary" and m.get("op") in ("<", "<=", ">", ">=") and \
+                    any(x.get("k") == "MethodCall" and x.get("m") == "order" for x in walk(m)):
+                out.add("order-comparison")
+        return out
+    seen_ln = set()
+    for path in ("xml_xpath::eval::eval_loc_expr", "xml_xpath::eval::eval_filtered_loc_expr"):
+        g = facts.fn(path)
+        for n in [x for h in facts.family(g) for x in walk(h["body"]) if x.get("k") == "Match" and scrut_is(x, "LocationPathOperator")]:
+            arms = {}
+            for arm in n["arms"]:
+                for v in variants_of_pat(arm["pat"]):
+                    arms[v] = arm
+            if "Current" not in arms or "DescendantOrSelfNode" not in arms or n.get("ln") in seen_ln:
+                continue
+            seen_ln.add(n.get("ln"))
+            st["instances"] += 1
+            # the desugared `for` contributes one `break` to both arms alike
+            extra = sorted(leaves_out(arms["DescendantOrSelfNode"]["body"]) - leaves_out(arms["Current"]["body"]))
+            res.oblige(1, not extra)
+            if not extra:
+                continue
+            res.add(Finding(rule, "%s|//" % path.split("::")[-1], "%s: the arm for '//' leaves context nodes out (%s) where the arm for '/' "
+                            "takes every node: a//b and a/descendant-or-self::node()/b differ when the nodes of `a` do not arrive in "
+                            "document order" % (path, ", ".join(extra)), g["file"], arms["DescendantOrSelfNode"].get("ln") or n.get("ln"), {}))
+    if st["instances"] < 2:
+        raise BrokenCheck("%s: %d matches over the path operator (floor 2)" % (rule, st["instances"]))
+
+
+def r08_7(facts, res, rule="R08-7"):
+    """`@x[n]` and `attribute::x[n]`, `x[n]` and `child::x[n]` number the same candidates: the candidate list of a step is put in
+    document order before the predicates for *every* axis specifier, abbreviated or named (the DOM lists attributes defaulted
+    from the DTD behind the written ones, whatever their order keys say).  Decided by enumflow over the axis domain."""
+    import enumflow
+    import xpdispatch
+    st = res.rule(rule, instances=1)
+    f = facts.fn("xml_xpath::eval::eval_axis_node_test")
+    try:
+        dom = xpdispatch.axis_domain(facts)
+        hits = enumflow.Flow(dom, f).run(lambda n: n.get("k") == "MethodCall" and str(n.get("m", "")).startswith("sort")
+                                         and "xml_dom::XmlNode" in str(n.get("recvty", "")))
+    except enumflow.Unknown as u:
+        raise BrokenCheck("%s: %s" % (rule, u))
+    got = set()
+    for _, s_ in hits:
+        got |= s_
+    missing = sorted(set(dom.universe) - got) if hits else None
+    ok = bool(hits) and not missing
+    res.oblige(1, ok)
+    res.sample({"rule": rule, "sort_sites": len(hits), "axes_sorted": len(got)})
+    if not ok:
+        res.add(Finding(rule, "sort-before-predicates", "the candidates of a step are not sorted into document order before the predicates for %s: "
+                        "a positional predicate counts differently for the abbreviated and the unabbreviated spelling (defaulted attributes "
+                        "are listed last by the DOM)" % (missing if missing is not None else "any axis"), f["file"], f["line"], {}))
+
+
 def r08_4(facts, res):
     """[n] means position() = n: the Number arm of eval_predicate compares as f64, without casting the number to an integer."""
     st = res.rule("R08-4", instances=1)
@@ -309,6 +380,8 @@ def run(facts, tier):
         raise BrokenCheck("R01-2: %d alts (floor 9)" % res.rules["R01-2"]["instances"])
     r08_3(facts, res)
     r08_4(facts, res)
+    r08_7(facts, res)
+    r08_8(facts, res)
     r08_5(facts, res)
     res.notes.extend(ex.notes)
     res.functions_analysed = len(rows)
